@@ -11,7 +11,7 @@ use crate::elem::{self, Elem};
 use crate::exec::{guarded, snap, snap_matches, Caught, Out, World};
 use crate::types::*;
 
-pub const N_RAW_VARIANTS: u8 = 4;
+pub const N_RAW_VARIANTS: u8 = 5;
 pub const N_BYTES_VARIANTS: u8 = 6;
 
 /// what `into_raw_parts` must report
@@ -51,7 +51,7 @@ impl<T: Elem + SatisfyTraits<Tr>, M: MX, Tr: TrX + ?Sized> World<T, M, Tr> {
         let a = std::mem::replace(&mut self.a, dummy);
         let mut fails = Vec::new();
         let fr = &mut fails;
-        let r = guarded(move || M::raw_roundtrip::<Tr>(a, variant, &want, fr));
+        let r = guarded(move || M::raw_roundtrip::<T, Tr>(a, variant, &want, fr));
         out.fails.append(&mut fails);
         match r {
             Err(Caught::Injected) => { out.faulted = true; return; }
